@@ -368,16 +368,45 @@ pub fn antiamp(trace: &[Value]) -> Vec<Value> {
     let mut first_validated = false;
     let mut open: Vec<i64> = Vec::new();
     let mut lines: std::collections::BTreeMap<i64, Vec<Value>> = Default::default();
+    // tokens the server put on the wire and where they went
+    let mut retry_to: std::collections::HashMap<String, i64> = Default::default();
+    let mut newtok_to: std::collections::HashMap<String, i64> = Default::default();
     for e in trace {
         let ev = e["ev"].as_str().unwrap_or("");
         if e["n"] != 0 {
             continue;
         }
+        if ev == "Tx" || ev == "Resp" {
+            let dst = e["dst"].as_i64().unwrap_or(0);
+            let mut pkts: Vec<Value> = Vec::new();
+            for d in e["dgs"].as_array().cloned().unwrap_or_default() {
+                pkts.extend(d["pkts"].as_array().cloned().unwrap_or_default());
+            }
+            pkts.extend(e["pkts"].as_array().cloned().unwrap_or_default());
+            for p in pkts {
+                if p["ty"] == "R" {
+                    retry_to.insert(p["tokh"].as_str().unwrap_or("").to_string(), dst);
+                }
+                for f in p["fr"].as_array().cloned().unwrap_or_default() {
+                    if f["f"] == "NEW_TOKEN" {
+                        newtok_to.insert(f["tok"].as_str().unwrap_or("").to_string(), dst);
+                    }
+                }
+            }
+        }
         match ev {
             "Rx" if e["kind"] == "new" => {
                 first_size = e["size"].as_i64().unwrap_or(0);
                 first_src = e["src"].as_i64().unwrap_or(0);
-                first_validated = e["validated"] == true;
+                // quinn's word that the token validates the address counts only if the harness saw
+                // that very token go to that address (Retry: same address; NEW_TOKEN: same host)
+                let tokh = e["pk"][0]["tokh"].as_str().unwrap_or("").to_string();
+                let bound = match (retry_to.get(&tokh), newtok_to.get(&tokh)) {
+                    (Some(a), _) => *a == first_src,
+                    (None, Some(a)) => (*a >> 16) == (first_src >> 16),
+                    _ => false,
+                };
+                first_validated = e["validated"] == true && bound;
             }
             "Accept" if e["ok"] == true => {
                 let c = e["c"].as_i64().unwrap();
